@@ -273,9 +273,6 @@ def db_check(pid, tier, seed, profile, n_quick, n_thorough, prop_module, claims_
             elsewhere["/".join(sorted(sc))] += 1
     for name, tail in res["failed_files"]:
         ck.violation({"kind": "model-evaluation-failed", "what_no_longer_checks": f"coqc on generated {name}", "log": tail}, no_input=True)
-    if not b["ok"]:
-        ck.violation({"kind": "proof-broken", "what_no_longer_checks": f"{prop_module}.v (theorems {b['theorems']})",
-                      "log": b["log"][-2000:], "forbidden": b["forbidden"]}, no_input=True)
     reported = 0
     spec_bad, spec_checked = direct_oracle(cases)
     spec_mine = [(ci, k, want) for ci, k, want in spec_bad if pid in scopes(cases[ci][0], cases[ci][1], cases[ci][2], cases[ci][3], k)]
@@ -312,6 +309,9 @@ def db_check(pid, tier, seed, profile, n_quick, n_thorough, prop_module, claims_
         reported += 1
     if direct:
         direct(ck, tf)
+    if not b["ok"]:
+        ck.violation({"kind": "proof-broken", "what_no_longer_checks": f"{prop_module}.v (theorems {b['theorems']}) or a file of its cone / the generated definitions",
+                      "log": b["log"][-2000:], "forbidden": b["forbidden"]}, no_input=not ck.violations)
     # known findings of this property: replay their witnesses on the implementation
     import subprocess
     for f in load_known_findings():
